@@ -36,7 +36,7 @@ COMPONENTS = {"real": ["setigen.cadence.Cadence.add_signal / overwrite_times / c
 ASSUMPTIONS = ["box frequency profiles are not combined with sub-sample integration (knife-edge pixels)",
                "an interrupt delivered on the cadence loop's own restore statement is out of scope",
                "the failing frame's own data is not judged after a fault"]
-PROBES = ["options_by_position", "frame_with_own_time_origin", "callback_raised_on_frame_k>0", "interrupt_inside_later_frame", "integrate_path", "integrate_t_profile",
+PROBES = ["consolidated_one_frame_cadence", "options_by_position", "frame_with_own_time_origin", "callback_raised_on_frame_k>0", "interrupt_inside_later_frame", "integrate_path", "integrate_t_profile",
           "integrate_f_profile", "doppler_smearing", "slice_subset", "label_subset", "repeated_injection", "gaps_between_frames",
           "array_path", "bounding_range", "stateful_rfi_path", "noncontiguous_subset", "parent_built_with_t_overwrite", "second_injection_through_other_selection"]
 MAX_LINE_POINTS = 1500
@@ -530,6 +530,27 @@ def execute(sc, ctx):
         and cons.tchans == sum(f.tchans for f in fr2) and cons.fchans == g["fchans"] \
         and np.array_equal(cons.fs, fr2[0].fs)
     ctx.check(ok, "consolidate", "C16/consolidate/data_or_times", "consolidated frame differs from the concatenation in order")
+    # the consolidated frame is a new frame: it shares no data with the members, also for sub-cadences of one frame
+    # (label subsets, length-1 slices), and editing either side leaves the other alone
+    subs = [("all", c2)] + [("one_frame:%d" % k, c2[k:k + 1]) for k in sorted({0, len(fr2) - 1})]
+    for nm, sub in subs:
+        cs = sub.consolidate()
+        mem = list(sub)
+        if not ctx.check(cs is not None and not any(np.shares_memory(cs.data, f.data) or np.shares_memory(np.asarray(cs.ts), np.asarray(f.ts))
+                                                    for f in mem), "consolidate",
+                         "C16/consolidate/shares_memory_with_member/%s" % nm.split(":")[0], ""):
+            break
+        before = [np.array(f.data, copy=True) for f in mem]
+        held = np.array(cs.data, copy=True)
+        cs.data += 1.0
+        ok1 = all(np.array_equal(f.data, b) for f, b in zip(mem, before))
+        for f in mem:
+            f.data = f.data * 1.0
+            f.data += 2.0
+        ok2 = np.array_equal(cs.data, held + 1.0)
+        if not ctx.check(ok1 and ok2, "consolidate", "C16/consolidate/not_independent_of_members/%s" % nm.split(":")[0], ""):
+            break
+        ctx.hit("consolidated_one_frame_cadence" if nm != "all" else "consolidated_full_cadence")
     ctx.fingerprint = [len(members), sel["kind"], sc["path"]["kind"], sc["t"]["kind"], sc["f"]["kind"], sc["bp"]["kind"],
                        [k for k in ("integrate_path", "integrate_t_profile", "integrate_f_profile", "doppler_smearing") if opts[k]],
                        bool(sc["bounding"]), sc["repeats"], same_t, exhaustive]
